@@ -38,6 +38,29 @@ class Inconclusive(BaseException):
     """solver said unknown on a branch decision"""
 
 
+STUB_NAMES = ("SymInt", "SymBool", "SymReal", "SymBytes", "SymNd", "SymView", "_SymMV", "SymStr", "SymVec", "PBuf", "Mem", "MemView", "WBArray", "Ptr", "Addr", "FakeStatic", "FakeDyn", "FakeItem", "NpFacade", "NPProxy")
+
+
+def is_stub_gap(ex):
+    """an exception that says a stub of the harness does not offer what the code under test uses (attribute, operand
+    type, call form), or that a symbolic size was turned into an absurd concrete amount of memory: the harness cannot
+    decide this path -- it is not the library refusing or failing"""
+    if isinstance(ex, (MemoryError, RecursionError)):
+        return True
+    if isinstance(ex, (AttributeError, TypeError, NotImplementedError)):
+        msg = str(ex)
+        if any(n in msg for n in STUB_NAMES):
+            return True
+        tb = ex.__traceback__
+        last = None
+        while tb is not None:
+            last = tb
+            tb = tb.tb_next
+        if last is not None and "/verif/" in last.tb_frame.f_code.co_filename:
+            return True
+    return False
+
+
 _ENG = None
 
 
